@@ -1,39 +1,79 @@
 /-
-C12 — time model of the client key exchange's I/O steps
+C12 — time model of the client key exchange's transport calls
 (/repo/exchange/client_flow.go `ClientExchange.Run`, /repo/exchange/proto.go
 `unencryptedWriter.{writeUnencrypted,tryRead,readUnencrypted}`).
 
-`ClientExchange.Run` is a straight line of transport calls.  Which calls there are, in which order,
-and whether each runs under `context.WithTimeout(ctx, w.timeout)` is *regenerated* from the source
-(`Facts.C12.exchangeSteps`).  Time is logical (`Nat`, any unit).  A transport call that the peer
-never completes returns when its context ends:
+The source is not classified by the extractor: `Facts.C12.runSkeleton` and `Facts.C12.helpers` are
+the *statement skeletons* of `Run` and of every `unencryptedWriter` method (context re-bindings,
+transport calls with their context argument, helper calls, loop brackets), and `interp` below walks
+them: a transport call is `timed` iff the context it is given was derived, by an unconditional
+top-level `ctx, cancel := context.WithTimeout(ctx, w.timeout)` of the enclosing function (or of a
+caller that passes that `ctx` down), and it is `inLoop` iff it sits inside a `for` body (the −404
+retry loop of `readUnencrypted`).  Anything the interpreter does not understand yields an untimed
+call (fail closed).
 
-* timed call (inside `tryRead` / `writeUnencrypted`): at `min(callerDeadline?, start + timeout)`;
-* bare call (`c.conn.Recv(ctx, b)`): at `callerDeadline?` — `none` = never.
-
-The caller's context (`deadline : Option Nat`) is the only thing that differs between a plain
-connect (deadline = dial timeout), a PFS connect (`connectPFS(ctx)`: no deadline) and re-keying from
-the read loop (`handleAuthKeyNotFound(ctx)`: no deadline); it is universally quantified below.
+Time is logical (`Nat`).  A transport call that the peer never completes returns when its context
+ends: a timed call at `min(callerDeadline?, start + timeout)`, a bare call at `callerDeadline?`
+(`none` = never).  The caller's context is the only difference between a plain connect (deadline =
+dial timeout), a PFS connect and re-keying from the read loop (no deadline); it is universally
+quantified.  A peer may also answer a read with transport-level −404 frames ("auth key not found"):
+a call inside the retry loop is re-issued after each, any other call fails with it.
 -/
 import TdModel.Gen.C12
 
 namespace TdModel.C12
 
+/-- One transport call site of the flow. -/
 structure Step where
   name : String
   recv : Bool
   timed : Bool
+  inLoop : Bool
   deriving Repr, DecidableEq
 
-def Step.ofFact (f : String × Bool × Bool) : Step := ⟨f.1, f.2.1, f.2.2⟩
+abbrev Row := String × String × String
 
-/-- The transport calls of `ClientExchange.Run`, in program order (regenerated). -/
-def steps : List Step := Facts.C12.exchangeSteps.map Step.ofFact
+def lookupHelper (hs : List (String × List Row)) (m : String) : Option (List Row) :=
+  (hs.find? (fun h => h.1 == m)).map (·.2)
 
-/-- The same list before the `fix:` commit for D5 (steps 5 and 7 were bare `c.conn.Recv`). -/
-def stepsBeforeFix : List Step :=
-  [⟨"writeUnencrypted", false, true⟩, ⟨"readUnencrypted", true, true⟩, ⟨"writeUnencrypted", false, true⟩,
-   ⟨"conn.Recv", true, false⟩, ⟨"writeUnencrypted", false, true⟩, ⟨"conn.Recv", true, false⟩]
+/-- What an uninterpretable row stands for: a call nothing is known about. -/
+def poison (why : String) : Step := ⟨why, true, false, true⟩
+
+/-- Interpreter of the statement skeletons.  The work list holds the rest of each active function
+with `bounded` = "the identifier `ctx` currently denotes a context limited by `w.timeout`";
+`depth` = number of enclosing loops.  One row is consumed per unit of fuel. -/
+def interp (hs : List (String × List Row)) : Nat → List (List Row × Bool) → Nat → List Step
+  | _, [], _ => []
+  | 0, _ :: _, _ => [poison "out of fuel"]
+  | n + 1, ([], _) :: frames, depth => interp hs n frames depth
+  | n + 1, ((kind, a, b) :: rest, bounded) :: frames, depth =>
+    if kind = "wt" then interp hs n ((rest, bounded || a == "w.timeout") :: frames) depth
+    else if kind = "wt?" then interp hs n ((rest, bounded) :: frames) depth
+    else if kind = "rebind" then interp hs n ((rest, false) :: frames) depth
+    else if kind = "loop" then interp hs n ((rest, bounded) :: frames) (depth + 1)
+    else if kind = "end" then interp hs n ((rest, bounded) :: frames) (depth - 1)
+    else if kind = "call" then
+      ⟨a, a == "Recv", bounded && b == "ctx", decide (0 < depth)⟩ :: interp hs n ((rest, bounded) :: frames) depth
+    else if kind = "helper" then
+      match lookupHelper hs a with
+      | some rows => interp hs n ((rows, bounded && b == "ctx") :: (rest, bounded) :: frames) depth
+      | none => poison a :: interp hs n ((rest, bounded) :: frames) depth
+    else poison kind :: interp hs n ((rest, bounded) :: frames) depth
+
+/-- The transport calls of a `Run` skeleton, in program order.  `Run`'s own `ctx` is the caller's:
+not bounded. -/
+def stepsOf (hs : List (String × List Row)) (run : List Row) : List Step := interp hs 400 [(run, false)] 0
+
+/-- The transport calls of the current source (regenerated). -/
+def steps : List Step := stepsOf Facts.C12.helpers Facts.C12.runSkeleton
+
+/-- `Run`'s skeleton before the `fix:` commit for D5: steps 5 and 7 were bare `c.conn.Recv(ctx, b)`. -/
+def runSkeletonBeforeFix : List Row :=
+  [("helper", "writeUnencrypted", "ctx"), ("helper", "readUnencrypted", "ctx"),
+   ("helper", "writeUnencrypted", "ctx"), ("call", "Recv", "ctx"),
+   ("helper", "writeUnencrypted", "ctx"), ("call", "Recv", "ctx")]
+
+def stepsBeforeFix : List Step := stepsOf Facts.C12.helpers runSkeletonBeforeFix
 
 /-- When the context handed to a transport call started at `start` ends (`none` = never):
 `context.WithTimeout(ctx, timeout)` for a timed call, the caller's `ctx` otherwise.  A context
@@ -54,27 +94,48 @@ def ioEnd (s : Step) (start timeout : Nat) (deadline : Option Nat) (lat : Option
   | some l, some e => if start + l ≤ e then (some (start + l), true) else (some e, false)
   | none, e => (e, false)
 
-/-- One executed transport call of a run. `stop = none`: the call never returns. -/
+/-- One executed transport call. `stop = none`: the call never returns.  `ok`: it delivered a
+frame in time (an answer, or a −404 that the retry loop skips). -/
 structure Ev where
   start : Nat
   stop : Option Nat
   ok : Bool
   deriving Repr, DecidableEq
 
-/-- A run of the flow: each step comes with the local computation time before it (`gap`:
-factorisation, DH checks, …) and the peer's latency for it.  The run stops at the first failed
-call (every error path of `Run` returns immediately). -/
-def runTrace (timeout : Nat) (deadline : Option Nat) : List (Step × Nat × Option Nat) → Nat → List Ev
+/-- One call site against a peer that first sends −404 frames (`skips`: latency of each, counted
+from the start of the call that receives it) and then answers after `final` (`none` = silence).
+Returns the executed calls and the time the step completed (`none` = the run failed here). -/
+def callRun (s : Step) (timeout : Nat) (deadline : Option Nat) : List Nat → Option Nat → Nat → List Ev × Option Nat
+  | [], final, start =>
+    match ioEnd s start timeout deadline final with
+    | (some t, true) => ([⟨start, some t, true⟩], some t)
+    | (e, _) => ([⟨start, e, false⟩], none)
+  | k :: ks, final, start =>
+    match ioEnd s start timeout deadline (some k) with
+    | (some t, true) =>
+      if s.inLoop then
+        (⟨start, some t, true⟩ :: (callRun s timeout deadline ks final t).1, (callRun s timeout deadline ks final t).2)
+      else ([⟨start, some t, false⟩], none)  -- −404 outside the retry loop is an error of `Run`
+    | (e, _) => ([⟨start, e, false⟩], none)
+
+/-- Peer behaviour at one step: local computation time before it, −404 frames, the answer. -/
+structure Beh where
+  gap : Nat
+  skips : List Nat
+  final : Option Nat
+  deriving Repr
+
+/-- A run of the flow; it stops at the first failed call (every error path of `Run` returns). -/
+def runTrace (timeout : Nat) (deadline : Option Nat) : List (Step × Beh) → Nat → List Ev
   | [], _ => []
-  | (s, gap, lat) :: rest, now =>
-    let start := now + gap
-    match ioEnd s start timeout deadline lat with
-    | (some t, true) => ⟨start, some t, true⟩ :: runTrace timeout deadline rest t
-    | (e, _) => [⟨start, e, false⟩]
+  | (s, b) :: rest, now =>
+    match (callRun s timeout deadline b.skips b.final (now + b.gap)).2 with
+    | some t => (callRun s timeout deadline b.skips b.final (now + b.gap)).1 ++ runTrace timeout deadline rest t
+    | none => (callRun s timeout deadline b.skips b.final (now + b.gap)).1
 
 /-- The peer answers the first `k` steps after `lat` each and is silent from step `k` on. -/
-def stallAt (ss : List Step) (k gap lat : Nat) : List (Step × Nat × Option Nat) :=
-  (List.range ss.length).zip ss |>.map fun (i, s) => (s, gap, if i < k then some lat else none)
+def stallAt (ss : List Step) (k gap lat : Nat) : List (Step × Beh) :=
+  (List.range ss.length).zip ss |>.map fun (i, s) => (s, ⟨gap, [], if i < k then some lat else none⟩)
 
 /-- When `Run` returns if the peer stalls at step `k` (0-based) which started at `start`. -/
 def stallReturn (ss : List Step) (k start timeout : Nat) (deadline : Option Nat) : Option (Option Nat) :=
